@@ -70,6 +70,61 @@ CLAIMED["C07"] = dict(
     "can only turn no into yes) are clamped in the model and excluded from the kmers_present comparison. Two genuine defects were repaired in /repo (fix: commits 68eb3cf, 579ddcc).",
 )
 
+CLAIMED['C03'] = dict(
+    text="Theorems (coq/Properties/C03.v) on the single-end pipeline model, for every option set, adapter set (Forall wf_padapter) and read: with actions trim/none the written read is a contiguous slice of the input read (of its reverse complement exactly when --revcomp chose it), qualities are the same slice (zero-capped only if -z, only values below the base), sequence and qualities have equal length (C03_slice, using C01's structure theorem for every applied match and the composition of rounds); every non-adapter stage is a same-slice / names-only / zero-cap-only step; mask and lowercase keep length and qualities and write N / lower case exactly outside the composed interval; retain/crop are Python slices (contiguous, qualities in step). PARTIAL: paired-end stages (-U, -Q, -L, paired revcomp swap) are not in the model yet; the exact retain/crop interval is checked by the correspondence only.",
+    technique="Coq proof (induction over the stage list, slice composition lemmas, C01 structure theorem) + Orders translator + extracted-model system-level correspondence; slice oracle on the implementation's outputs",
+    design='6/C03',
+    note=TB + " System-level tie: cutadapt.cli.main run in-process on the rebuilt working tree vs the extracted pipeline model (output files, info file, JSON report counts and per-adapter statistics compared); argparse, dnaio and report formatting are not modelled; adapter objects are taken from the real parser (C18's business); --rename, wildcard/rest files and adapter indexing (runs use --no-index) are outside the pipeline model.",
+)
+CLAIMED['C04'] = dict(
+    text="Theorems (coq/Properties/C04.v) on the pipeline model's run = fold over reads: input = written + sum of all filter categories; every read has exactly one fate (written to one file xor one category); each output/redirect file is exactly the subsequence of reads routed to it, once each, in input order; every reported figure (input, bp, written, written bp, with-adapter, reverse-complemented, quality-trimmed, poly-A-trimmed, each category) is the sum over the individual reads. Genuine defect F4b repaired in /repo (66e8330). PARTIAL: paired-end accounting incl. combinatorial demultiplexing is not in the model yet; text/minimal report layouts are not modelled (the JSON counts are).",
+    technique="Coq proof (induction over the read list) + extracted-model system-level correspondence; recount oracle on the implementation's files and JSON report",
+    design='6/C04',
+    note=TB + " System-level tie: cutadapt.cli.main run in-process on the rebuilt working tree vs the extracted pipeline model (output files, info file, JSON report counts and per-adapter statistics compared); argparse, dnaio and report formatting are not modelled; adapter objects are taken from the real parser (C18's business); --rename, wildcard/rest files and adapter indexing (runs use --no-index) are outside the pipeline model.",
+)
+CLAIMED['C09'] = dict(
+    text="Theorems (coq/Properties/C09.v): MultipleAdapters.match_to returns the first candidate (in the given order) that no other candidate beats on (score, then fewer errors) (C09_best, invariant over the fold); --times rounds compose into one interval of the read the stage received, every applied match lies inside the sequence it was found in (by C01), search stops at the first miss; linked adapters: 3' part searched in what the 5' part leaves, None iff a required part is missing or nothing found (C09_linked); no match leaves the read untouched. Non-trim actions on the composed interval: C03_actions.",
+    technique="Coq proof (fold invariant, induction over rounds) + extracted-model system-level correspondence; rule oracle on the implementation's single-adapter answers",
+    design='6/C09',
+    note=TB + " System-level tie: cutadapt.cli.main run in-process on the rebuilt working tree vs the extracted pipeline model (output files, info file, JSON report counts and per-adapter statistics compared); argparse, dnaio and report formatting are not modelled; adapter objects are taken from the real parser (C18's business); --rename, wildcard/rest files and adapter indexing (runs use --no-index) are outside the pipeline model.",
+)
+CLAIMED['C10'] = dict(
+    text="Theorems (coq/Properties/C10.v): the stage order regenerated from cli.py on every run equals the documented order (C10_order: a closed equality that stops compiling when two stages are swapped in the source); the chain is the left fold of the stages, each seeing the previous output; an absent option contributes no stage; the adapter stage sits between cut/NextSeq/quality and the rest. The model's option record is a set (only -u keeps order): independence of argv order is checked by running the implementation with permuted argv against the model and against the composition of single-stage implementation runs. PARTIAL: which mate each option touches (paired-end) is not in the model yet.",
+    technique='Coq proof + fail-closed AST translator of make_pipeline_from_args (Generated/Orders.v) + extracted-model correspondence under permuted argv; stage-composition oracle on the implementation',
+    design='6/C10',
+    note=TB + " System-level tie: cutadapt.cli.main run in-process on the rebuilt working tree vs the extracted pipeline model (output files, info file, JSON report counts and per-adapter statistics compared); argparse, dnaio and report formatting are not modelled; adapter objects are taken from the real parser (C18's business); --rename, wildcard/rest files and adapter indexing (runs use --no-index) are outside the pipeline model.",
+)
+CLAIMED['C11'] = dict(
+    text="Theorems (coq/Properties/C11.v): the filter order regenerated from cli.py equals the documented order, text writers come before and the sink after all filters; the first filter whose predicate holds consumes the read (C11_first) and a read passes iff none holds; each integer criterion is the documented strict inequality with its redirect destination, boundary values are kept. The three float criteria (--max-n fraction, --max-ee, --max-aer) are parameters of the model; their cases are decided by the decimal oracle on the implementation (boundary-ambiguous ones skipped). PARTIAL: paired-end pair-filter modes are in C05's scope, not modelled yet.",
+    technique='Coq proof + Orders translator + extracted-model system-level correspondence; criteria oracle on the implementation',
+    design='6/C11',
+    note=TB + " System-level tie: cutadapt.cli.main run in-process on the rebuilt working tree vs the extracted pipeline model (output files, info file, JSON report counts and per-adapter statistics compared); argparse, dnaio and report formatting are not modelled; adapter objects are taken from the real parser (C18's business); --rename, wildcard/rest files and adapter indexing (runs use --no-index) are outside the pipeline model.",
+)
+CLAIMED['C15'] = dict(
+    text='Theorems (coq/Properties/C15.v): with {name} the sink routes by the adapter of the last match / unknown / untrimmed output / discard (C15_route); without trimmed/untrimmed options every read yields the same record and is written exactly when it is written by the same command without {name} (C15_same_records, a theorem relating two runs); each file is the in-order subsequence routed to it. That a file exists for every adapter name even if empty is checked on the implementation only. PARTIAL: paired and combinatorial demultiplexing not modelled yet.',
+    technique='Coq proof + extracted-model system-level correspondence; routing/multiset oracle on the implementation',
+    design='6/C15',
+    note=TB + " System-level tie: cutadapt.cli.main run in-process on the rebuilt working tree vs the extracted pipeline model (output files, info file, JSON report counts and per-adapter statistics compared); argparse, dnaio and report formatting are not modelled; adapter objects are taken from the real parser (C18's business); --rename, wildcard/rest files and adapter indexing (runs use --no-index) are outside the pipeline model.",
+)
+CLAIMED['C16'] = dict(
+    text='Theorems (coq/Properties/C16.v): the --revcomp stage returns the forward result unless the reverse complement has a match and a strictly higher total score, in which case it returns the trimmed reverse complement with reversed qualities, name suffix and the flag (C16_choice); ties keep the given orientation (C16_tie). Genuine defect F16 repaired in /repo (3fe341c). PARTIAL: the paired variant (R1/R2 swap) is not modelled yet; {rc} under --rename is not modelled.',
+    technique='Coq proof + extracted-model system-level correspondence; API-level choice oracle on the implementation',
+    design='6/C16',
+    note=TB + " System-level tie: cutadapt.cli.main run in-process on the rebuilt working tree vs the extracted pipeline model (output files, info file, JSON report counts and per-adapter statistics compared); argparse, dnaio and report formatting are not modelled; adapter objects are taken from the real parser (C18's business); --rename, wildcard/rest files and adapter indexing (runs use --no-index) are outside the pipeline model.",
+)
+CLAIMED['C17'] = dict(
+    text="Theorems (coq/Properties/C17.v): for a match lying in a sequence as long as the displayed read, the row has 11 fields, fields 2-4 are errors/start/end, fields 5-7 concatenate to the displayed read and the middle one is exactly [start,end), fields 9-11 split the qualities at the same coordinates (C17_fields, via C01 ranges); the info writer precedes every filter. KNOWN FINDING F17 (not repaired): after 5' removal before adapter trimming the coordinates are shifted; C17_F17_refuted proves this of the faithful model by a computed witness, the check prints KNOWN-FINDING for it and still reports any other violation.",
+    technique="Coq proof + Orders translator + extracted-model system-level correspondence (info file compared row by row); re-alignment oracle on the implementation's info file",
+    design='6/C17',
+    note=TB + " System-level tie: cutadapt.cli.main run in-process on the rebuilt working tree vs the extracted pipeline model (output files, info file, JSON report counts and per-adapter statistics compared); argparse, dnaio and report formatting are not modelled; adapter objects are taken from the real parser (C18's business); --rename, wildcard/rest files and adapter indexing (runs use --no-index) are outside the pipeline model.",
+)
+CLAIMED['C20'] = dict(
+    text='Theorems (coq/Properties/C20.v): the incremental per-adapter table (adapter, end, removed length, errors) equals the count of applied matches with that key (C20_tally), tallies of chunks add (C20_tally_merge); the allowed-errors ranges list has thr(n)+1 entries ending in n and, for every 1 <= L <= n, the number of break points below L is thr L = int(L*rate) (C20_ranges, for any monotone thr with thr 0 = 0). Genuine defect F20 repaired in /repo (dc20406). PARTIAL: R2 statistics and --pair-adapters not modelled yet.',
+    technique='Coq proof (fold/count lemma, loop invariant for the ranges) + extracted-model system-level correspondence of per-adapter statistics; info-file tally oracle on the implementation',
+    design='6/C20',
+    note=TB + " System-level tie: cutadapt.cli.main run in-process on the rebuilt working tree vs the extracted pipeline model (output files, info file, JSON report counts and per-adapter statistics compared); argparse, dnaio and report formatting are not modelled; adapter objects are taken from the real parser (C18's business); --rename, wildcard/rest files and adapter indexing (runs use --no-index) are outside the pipeline model.",
+)
+
 NOT_YET = {}
 
 
